@@ -1,0 +1,39 @@
+//go:build verif
+
+// Package verifbridge re-exports the bitswap server decision engine, which lives
+// in an internal package, for the external /verif property checks. It is compiled
+// only with the build tag "verif" and adds no behaviour of its own.
+package verifbridge
+
+import (
+	"github.com/ipfs/boxo/bitswap/server/internal/decision"
+)
+
+type (
+	Engine                 = decision.Engine
+	Envelope               = decision.Envelope
+	Option                 = decision.Option
+	PeerTagger             = decision.PeerTagger
+	ScoreLedger            = decision.ScoreLedger
+	ScorePeerFunc          = decision.ScorePeerFunc
+	Receipt                = decision.Receipt
+	TaskInfo               = decision.TaskInfo
+	TaskComparator         = decision.TaskComparator
+	PeerBlockRequestFilter = decision.PeerBlockRequestFilter
+)
+
+var (
+	NewEngine                           = decision.NewEngine
+	NewDefaultScoreLedger               = decision.NewDefaultScoreLedger
+	WithTaskComparator                  = decision.WithTaskComparator
+	WithPeerBlockRequestFilter          = decision.WithPeerBlockRequestFilter
+	WithTargetMessageSize               = decision.WithTargetMessageSize
+	WithScoreLedger                     = decision.WithScoreLedger
+	WithBlockstoreWorkerCount           = decision.WithBlockstoreWorkerCount
+	WithTaskWorkerCount                 = decision.WithTaskWorkerCount
+	WithMaxOutstandingBytesPerPeer      = decision.WithMaxOutstandingBytesPerPeer
+	WithMaxQueuedWantlistEntriesPerPeer = decision.WithMaxQueuedWantlistEntriesPerPeer
+	WithMaxCidSize                      = decision.WithMaxCidSize
+	WithSetSendDontHave                 = decision.WithSetSendDontHave
+	WithWantHaveReplaceSize             = decision.WithWantHaveReplaceSize
+)
